@@ -152,9 +152,19 @@ def check(d, root, flist, case, ch=None, public=False):
         return out
     # (4) metamorphic relations
     if ch is not None:
-        m = ch.int(0, 3)
+        m = ch.int(0, 4)
         try:
-            if m == 0:
+            if m == 4:
+                # the documented add_comments option writes the messages into a copy as comments: same verdict,
+                # and the annotated copy still validates to the same verdict (comments are hidden keys)
+                W = env.Workers.get()
+                dc = copy.deepcopy(d)
+                got2 = names_of(W.validator().validate(dc, add_comments=True, schema_name=root))
+                rel = "add_comments=True"
+                if got2 == got:
+                    got2 = names_of(validate_any(dc, root))
+                    rel = "the comments written by add_comments=True"
+            elif m == 0:
                 got2 = names_of(validate_any(recase_values(d, ch), root))
                 rel = "letter case of string values"
             elif m == 1:
